@@ -104,6 +104,23 @@ def run(tier, seed):
             cases.q("avail", p)
             for nm in wsgen.NAMES + ["uses_it"]:
                 cases.q("resolve", p, nm)
+        # … and closed WITHOUT SAVING after an edit that removed their imports (the buffer is discarded: the file on
+        # disk, which still imports, is the content in effect again - for every feature alike)
+        cases.case("wfix%du" % j, dict(ws.meta, closed_unsaved=3))
+        wsgen.emit_setup(cases, ws)
+        for k, p in enumerate(ws.files):
+            if p.endswith("conftest.py"):
+                t = ws.files[p].text()
+                stripped = "\n".join(l for l in t.split("\n") if not (l.startswith("from ") or l.startswith("pytest_plugins"))) or "\n"
+                cases.text("u%d" % k, stripped)
+                cases.op("analyze", p, "u%d" % k)
+        for p in ws.files:
+            if p.endswith("conftest.py"):
+                cases.op("close", p)
+        for p in ws.files:
+            cases.q("avail", p)
+            for nm in wsgen.NAMES + ["uses_it"]:
+                cases.q("resolve", p, nm)
     for i in range(n):
         ws = wsgen.gen_workspace(r.rng)
         name = "w%d" % i
